@@ -243,3 +243,8 @@ pub fn regime_ok(k: i32, regime: u64, reg_s: bool, reg_len: u32, n: u32) -> bool
         reg_s && reg_len == len && regime == want
     }
 }
+
+/// positive encoding `r` is the posit-rule rounding of frac * 2^e (frac > 0): contract of the encode helpers (calc_ui / form_ui)
+pub fn round_pos_ok(frac: u128, e: i32, r: u64, n: u32, es: u32) -> bool {
+    is_rounded_pos(r, n, es, |m, ee| cmp_dy(frac, e, m as u128, ee))
+}
